@@ -36,6 +36,7 @@ def _worker(args):
     modname, cfg, limit = args
     from vlib import symex
     symex.Stats.reset()
+    sys.setrecursionlimit(max(sys.getrecursionlimit(), 20000))      # sums over hundreds of DFT bins nest deeply
     mod = importlib.import_module(modname)
     t0 = time.time()
     signal.signal(signal.SIGALRM, _alarm)
